@@ -51,7 +51,7 @@ PROBES = [
     "reused_address_still_cached", "legit_cache_hit_possible", "eviction_ran",
     "process_pool_used", "lookalike_neighbours_in_batch",
     "second_fit_same_reactor", "entry_dict_edited_between_fits", "twin_reactor_other_worker_count", "nested_parallel", "crash_mid_fit",
-    "cluster_batched", "validate_parallel", "validate_tautomer_sensitive_pair", "validate_aromaticity_sensitive_pair", "dataframe_with_permuted_index", "crn_task_fails_inside_reactor", "signature_not_equal_to_itself", "crn_step_with_more_than_1024_tasks", "validate_more_than_256_rows", "balance_parallel", "crn_parallel",
+    "cluster_batched", "validate_parallel", "validate_tautomer_sensitive_pair", "validate_aromaticity_sensitive_pair", "dataframe_with_permuted_index", "crn_task_fails_inside_reactor", "crn_non_default_options", "crn_three_component_rule", "signature_not_equal_to_itself", "crn_step_with_more_than_1024_tasks", "validate_more_than_256_rows", "balance_parallel", "crn_parallel",
 ]
 REAL = ["synkit.Synthesis.Reactor.batch_reactor (BatchReactor, _RuleApplier, _apply_rule_raw)",
         "synkit.Synthesis.Reactor.syn_reactor.SynReactor and everything beneath (matcher, ITS gluing, RDKit)",
